@@ -10,6 +10,7 @@ edit of a loop bound, a swap condition or a recoding step changes `SqiGen/Ladder
 
 set_option linter.unusedVariables false
 set_option linter.unusedSectionVars false
+set_option linter.unusedSimpArgs false
 namespace SqiProofs.LadderGen
 open SqiGen SqiModel.Ladder
 
@@ -122,5 +123,160 @@ theorem ec_ladder3pt_eq (NWORDS_FIELD m : Nat) (P Q PQ : EcPoint F) (A : EcCurve
   obtain ⟨h0, h1, h2⟩ := l3_outer_sim A m NWORDS_FIELD (copy_point Q) (copy_point P) (copy_point PQ)
   simp only [SqiGen.ec_ladder3pt, SqiModel.Ladder.ladder3pt, ladder3bits, bitsLSB] at *
   rw [h1]
+
+/-! ## xDBLMUL : recoding loop -/
+
+/-- the digit pair stored by the generated code at index `j` of the word array `r` -/
+def digitsOf (r : Nat → Nat) (j : Nat) : Bool × Bool := (decide (r (2 * j) ≠ 0), decide (r (2 * j + 1) ≠ 0))
+
+theorem toNat_ne_zero (b : Bool) : decide (b.toNat ≠ 0) = b := by cases b <;> rfl
+
+/-- one iteration of the generated recoding loop = `recodeStep` of the hand model -/
+theorem recode_loop_step (BITS i : Nat) (hi : i < BITS) (mk s0 s1 pre : Bool) (kt lt : Nat) (r : Nat → Nat)
+    (rl : List (Bool × Bool)) :
+    let g := SqiGen.xDBLMUL_loop1 BITS (mk, s0, s1, pre, kt, lt, r) i
+    let s := recodeStep ⟨kt, lt, s0, s1, pre, rl⟩ (i + 1 == BITS)
+    g.2.1 = s.s0 ∧ g.2.2.1 = s.s1 ∧ g.2.2.2.1 = s.pre ∧ g.2.2.2.2.1 = s.kt ∧ g.2.2.2.2.2.1 = s.lt ∧
+    s.r = rl ++ [digitsOf g.2.2.2.2.2.2 i] ∧
+    (∀ j, j ≠ 2 * i → j ≠ 2 * i + 1 → g.2.2.2.2.2.2 j = r j) ∧
+    g.2.2.2.2.2.2 (2 * i) ≤ 1 ∧ g.2.2.2.2.2.2 (2 * i + 1) ≤ 1 := by
+  have hlast : (i + 1 == BITS) = decide (i = BITS - 1) := by
+    by_cases h : i = BITS - 1
+    · have : i + 1 = BITS := by omega
+      simp [h, this]
+      omega
+    · have : ¬ (i + 1 = BITS) := by omega
+      simp [h, this]
+  have hne : 2 * i ≠ 2 * i + 1 := by omega
+  simp only [SqiGen.xDBLMUL_loop1, recodeStep, hlast, digitsOf, if_pos, hne, if_false, if_true, toNat_ne_zero,
+    ite_true, ite_false, reduceIte]
+  refine ⟨trivial, trivial, trivial, trivial, trivial, trivial, ?_, Bool.toNat_le _, Bool.toNat_le _⟩
+  intro j h1 h2
+  simp only [h1, h2, if_false]
+
+/-- simulation relation between the generated recoding state and the model's `RecState` after `i` iterations -/
+def RecRel (i : Nat) (g : Bool × Bool × Bool × Bool × Nat × Nat × (Nat → Nat)) (s : RecState) : Prop :=
+  g.2.1 = s.s0 ∧ g.2.2.1 = s.s1 ∧ g.2.2.2.1 = s.pre ∧ g.2.2.2.2.1 = s.kt ∧ g.2.2.2.2.2.1 = s.lt ∧
+  s.r = (List.range i).map (digitsOf g.2.2.2.2.2.2) ∧ ∀ j, g.2.2.2.2.2.2 j ≤ 1
+
+theorem recode_loop_fold (BITS : Nat) (len : Nat) : ∀ (i0 : Nat), i0 + len ≤ BITS →
+    ∀ (g : Bool × Bool × Bool × Bool × Nat × Nat × (Nat → Nat)) (s : RecState), RecRel i0 g s →
+    RecRel (i0 + len) ((List.range' i0 len).foldl (SqiGen.xDBLMUL_loop1 BITS) g)
+      ((List.range' i0 len).foldl (fun st i => recodeStep st (i + 1 == BITS)) s) := by
+  induction len with
+  | zero => intro i0 _ g s h; simpa using h
+  | succ len ih =>
+    intro i0 hle g s h
+    simp only [List.range'_succ, List.foldl_cons]
+    have e : i0 + (len + 1) = (i0 + 1) + len := by omega
+    rw [e]
+    apply ih (i0 + 1) (by omega)
+    obtain ⟨mk, s0, s1, pre, kt, lt, r⟩ := g
+    obtain ⟨skt, slt, ss0, ss1, spre, sr⟩ := s
+    obtain ⟨h0, h1, h2, h3, h4, h5, h6⟩ := h
+    simp only at h0 h1 h2 h3 h4 h5 h6
+    subst h0 h1 h2 h3 h4
+    obtain ⟨k0, k1, k2, k3, k4, k5, k6, k7, k8⟩ := recode_loop_step BITS i0 (by omega) mk s0 s1 pre kt lt r sr
+    refine ⟨k0, k1, k2, k3, k4, ?_, ?_⟩
+    · rw [k5, h5, List.range_succ, List.map_append, List.map_cons, List.map_nil]
+      congr 1
+      apply List.map_congr_left
+      intro j hj
+      have hj' : j < i0 := List.mem_range.mp hj
+      simp only [digitsOf]
+      rw [k6 (2 * j) (by omega) (by omega), k6 (2 * j + 1) (by omega) (by omega)]
+    · intro j
+      by_cases e1 : j = 2 * i0
+      · rw [e1]; exact k7
+      · by_cases e2 : j = 2 * i0 + 1
+        · rw [e2]; exact k8
+        · rw [k6 j e1 e2]; exact h6 j
+
+/-! ## xDBLMUL : main loop -/
+
+/-- the generated main-loop state corresponds to the model's `DState` (the model also carries the scratch `T`) -/
+def MainRel (g : Bool × EcPoint F × EcPoint F × EcPoint F × EcPoint F × EcPoint F × EcPoint F × EcPoint F)
+    (s : DState F) : Prop :=
+  g.2.1 = s.D1a ∧ g.2.2.1 = s.D1b ∧ g.2.2.2.1 = s.D2a ∧ g.2.2.2.2.1 = s.D2b ∧ g.2.2.2.2.2.1 = s.R0 ∧
+  g.2.2.2.2.2.2.1 = s.R1 ∧ g.2.2.2.2.2.2.2 = s.R2
+
+theorem main_loop_step (r : Nat → Nat) (hr : ∀ j, r j ≤ 1) (A24 : EcPoint F) (i : Nat)
+    (g : Bool × EcPoint F × EcPoint F × EcPoint F × EcPoint F × EcPoint F × EcPoint F × EcPoint F) (s : DState F)
+    (h : MainRel g s) :
+    MainRel (SqiGen.xDBLMUL_loop2 r A24 g i) (dblmulStep A24 s (digitsOf r i) true) := by
+  obtain ⟨mk, D1a, D1b, D2a, D2b, R0, R1, R2⟩ := g
+  obtain ⟨sR0, sR1, sR2, sT0, sT1, sT2, sD1a, sD1b, sD2a, sD2b⟩ := s
+  obtain ⟨h0, h1, h2, h3, h4, h5, h6⟩ := h
+  simp only at h0 h1 h2 h3 h4 h5 h6
+  subst h0 h1 h2 h3 h4 h5 h6
+  have ha : r (2 * i) = 0 ∨ r (2 * i) = 1 := by have := hr (2 * i); omega
+  have hb : r (2 * i + 1) = 0 ∨ r (2 * i + 1) = 1 := by have := hr (2 * i + 1); omega
+  rcases ha with ha | ha <;> rcases hb with hb | hb <;>
+    simp [MainRel, SqiGen.xDBLMUL_loop2, dblmulStep, digitsOf, mask, ha, hb]
+
+theorem main_loop_fold (r : Nat → Nat) (hr : ∀ j, r j ≤ 1) (A24 : EcPoint F) (l : List Nat) :
+    ∀ (g : Bool × EcPoint F × EcPoint F × EcPoint F × EcPoint F × EcPoint F × EcPoint F × EcPoint F) (s : DState F),
+      MainRel g s →
+      MainRel (l.foldl (SqiGen.xDBLMUL_loop2 r A24) g)
+        ((l.map (digitsOf r)).foldl (fun st rr => dblmulStep A24 st rr true) s) := by
+  induction l with
+  | nil => intro g s h; exact h
+  | cons i l ih =>
+    intro g s h
+    simp only [List.foldl_cons, List.map_cons]
+    exact ih _ _ (main_loop_step r hr A24 i g s h)
+
+/-! ## xDBLMUL : the whole function -/
+
+theorem foldl_zip_snd' {α β γ : Type} (f : γ → β → γ) (l : List β) (idx : List α) (hlen : idx.length = l.length) (s : γ) :
+    (idx.zip l).foldl (fun st ir => f st ir.2) s = l.foldl f s := by
+  induction l generalizing idx s with
+  | nil => cases idx <;> simp
+  | cons b bs ih =>
+    cases idx with
+    | nil => simp at hlen
+    | cons i is_ =>
+      simp only [List.length_cons, Nat.add_right_cancel_iff] at hlen
+      simp only [List.zip_cons_cons, List.foldl_cons]
+      exact ih is_ hlen _
+
+theorem xDBLMUL_eq (NW BITS : Nat) (hW : 64 * NW = BITS) (hB : 0 < BITS) (k l : Nat) (hk : k < 2 ^ BITS) (hl : l < 2 ^ BITS)
+    (P Q PQ : EcPoint F) (curve : EcCurve F) :
+    SqiGen.xDBLMUL NW BITS P k Q l PQ curve = SqiModel.Ladder.xDBLMUL BITS k l P Q PQ curve := by
+  have hW1 : 1 % 2 ^ BITS = 1 := Nat.mod_eq_of_lt (Nat.one_lt_two_pow (by omega))
+  have hkm : k % 2 ^ BITS = k := Nat.mod_eq_of_lt hk
+  have hlm : l % 2 ^ BITS = l := Nat.mod_eq_of_lt hl
+  -- the recoding loops
+  have hrec := recode_loop_fold BITS BITS 0 (by omega)
+  simp only [Nat.zero_add, ← List.range_eq_range'] at hrec
+  simp only [SqiGen.xDBLMUL, SqiModel.Ladder.xDBLMUL, xDBLMULgen, recode, hW, hW1, hkm, hlm]
+  generalize hG : List.foldl (SqiGen.xDBLMUL_loop1 BITS) _ (List.range BITS) = gfin
+  generalize hS : List.foldl (fun st i => recodeStep st (i + 1 == BITS)) _ (List.range BITS) = sfin
+  have hfin : RecRel BITS gfin sfin := by
+    rw [← hG, ← hS]
+    apply hrec
+    cases hbk : k.testBit 0 <;> cases hbl : l.testBit 0 <;> simp [RecRel, digitsOf]
+  obtain ⟨e0, _, _, _, _, er, hle⟩ := hfin
+  rw [er, ← List.map_reverse]
+  rw [foldl_zip_snd' (fun st rr => dblmulStep (dblmulA24 curve) st rr true) _ _ (by simp)]
+  have hinit : MainRel (gfin.2.1,
+      ({ x := (select_point P Q (if gfin.2.1 = true then 1 else 0)).x,
+         z := (select_point P Q (if gfin.2.1 = true then 1 else 0)).z } : EcPoint F),
+      ({ x := (select_point Q P (if gfin.2.1 = true then 1 else 0)).x,
+         z := (select_point Q P (if gfin.2.1 = true then 1 else 0)).z } : EcPoint F),
+      ({ x := (xADD (select_point P Q (if gfin.2.1 = true then 1 else 0))
+                (select_point Q P (if gfin.2.1 = true then 1 else 0)) PQ).x,
+         z := (xADD (select_point P Q (if gfin.2.1 = true then 1 else 0))
+                (select_point Q P (if gfin.2.1 = true then 1 else 0)) PQ).z } : EcPoint F),
+      ({ x := PQ.x, z := PQ.z } : EcPoint F), ec_point_init, select_point P Q (if gfin.2.1 = true then 1 else 0),
+      xADD (select_point P Q (if gfin.2.1 = true then 1 else 0))
+        (select_point Q P (if gfin.2.1 = true then 1 else 0)) PQ)
+      (dblmulInit sfin.s0 P Q PQ) := by
+    simp [MainRel, dblmulInit, mask, e0]
+  have hm := main_loop_fold gfin.2.2.2.2.2.2 hle (dblmulA24 curve) (List.range BITS).reverse _ _ hinit
+  simp only [dblmulA24] at hm ⊢
+  obtain ⟨_, _, _, _, m0, m1, m2⟩ := hm
+  rw [m0, m1, m2]
+  cases hbk : k.testBit 0 <;> cases hbl : l.testBit 0 <;> simp [dblmulOut, mask]
 
 end SqiProofs.LadderGen
